@@ -47,6 +47,7 @@ C_ONE = b"\r"
 C_MULTI = b"01\r\n\xe9\x00\x00\x00\x00\x00\x00\x00"
 D_ONE = b"<v0>\r"
 D_MULTI = b"<v1>\r\n\xe9\x00\x00\x00\x00\x00\x00"
+D_ONE_ALT = b"<v2>\r"          # another document of exactly the length of D_ONE
 D_MULTI15 = b"<v1>\r\n\xe9\x00\x00\x00\x00\x00\x00\x00\x00"
 
 
